@@ -3,6 +3,7 @@ package props
 // C13: the smallest symbol that fits is chosen.
 
 import (
+	"bytes"
 	"fmt"
 	"image"
 	"testing"
@@ -284,6 +285,46 @@ func TestC13Sweep(t *testing.T) {
 					n += astep * (5 + n/40)
 				}
 			}
+		}
+	}
+	// Aztec exact fits: for every size (by explicit request), EVERY percentage 0..100 and two character classes the
+	// longest payload the explicit request accepts is found by bisection on the library's own answers; automatic sizing
+	// must not choose a larger symbol for it (a size search that skips a size which fits to the last bit)
+	type fitJob struct {
+		class byte
+		pct   int
+		l     int
+	}
+	var jobs []fitJob
+	maxFull := 14
+	if thorough() {
+		maxFull = 32
+	}
+	for _, class := range []byte{'a', '7'} {
+		for pct := 0; pct <= 100; pct++ {
+			for l := -4; l <= maxFull; l++ {
+				if l != 0 {
+					jobs = append(jobs, fitJob{class, pct, l})
+				}
+			}
+		}
+	}
+	fits := make([]*AztecCase, len(jobs))
+	parallelFor(len(jobs), 16, func(i int) {
+		j := jobs[i]
+		accepted := func(n int) bool {
+			bc, err, pv := aztecEncode(AztecCase{Payload: BStr(bytes.Repeat([]byte{j.class}, n)), ECC: j.pct, Layers: j.l})
+			return pv == nil && err == nil && !nilBarcode(bc)
+		}
+		if !accepted(1) {
+			return
+		}
+		n := seekSmallest(1, 6000, func(k int) bool { return !accepted(k) }) - 1
+		fits[i] = &AztecCase{Payload: BStr(bytes.Repeat([]byte{j.class}, n)), ECC: j.pct}
+	})
+	for _, f := range fits {
+		if f != nil {
+			cases = append(cases, C12Case{Sym: "aztec", Aztec: f})
 		}
 	}
 	parallelFor(len(cases), 16, func(i int) {
